@@ -5,7 +5,7 @@ package main
 import (
 	"fmt"
 	"go/types"
-	"sort"
+	"go/token"
 	"strings"
 
 	"golang.org/x/tools/go/ssa"
@@ -204,126 +204,96 @@ func runC20(c *Ctx) {
 	}
 
 	// ---------- R4 finder ----------
-	if matcher == nil {
-		c.Fail("C20.R4", "anchor:matcher", finder.Pos(), "unresolved anchor: the finder calls no three-argument matcher")
-		return
-	}
-	c.Fn(FuncName(matcher))
+	// The finder is evaluated with everything below it expanded (the matcher, whatever its
+	// parameter list; marker tables in package-level variables are read as constants and loops
+	// over them unrolled), and its decision is compared with the documented one.
+	_ = matcher
 	{
 		g := NewGate(c.P)
-		g.Inline = inlineOnly()
-		g.Pure[FuncName(matcher)] = true
+		g.Inline = nil
+		g.Unroll, g.ConstTables = true, true
 		s := g.Eval(finder)
 		u := g.U
 		body := g.ParamExprs(finder)[0]
-		loops := loopsOf(finder)
 		win := int64(16 * 1024)
 		if v, ok := a.constInt("proxy", "headBufferSize"); ok {
 			win = v
 		}
 		bad := ""
-		if len(loops) != 1 {
-			bad = fmt.Sprintf("UNDECIDED: expected one scan loop, found %d", len(loops))
+		var l *Loop
+		var ct *Counted
+		nScan := 0
+		for _, l2 := range loopsOf(finder) {
+			if ct2 := countedLoop(u, s, l2); ct2 != nil && ct2.Idx != nil && ct2.Idx.Op == "loopphi" {
+				l, ct = l2, ct2
+				nScan++
+			}
+		}
+		if nScan != 1 {
+			bad = fmt.Sprintf("UNDECIDED: expected one scan loop over the offsets, found %d", nScan)
 		} else {
-			l := loops[0]
-			ct := countedLoop(u, s, l)
-			if ct == nil {
-				bad = "UNDECIDED: not a counted loop"
-			} else {
-				if v, ok := ct.Init.IntVal(); !ok || v != 0 || !ct.StepOK || ct.Step != 1 {
-					bad = "the scan does not go 0,1,2,... (a later marker could be returned first, or offsets skipped)"
-				}
-				for _, L := range []int64{0, 1, 9, win - 1, win, win + 1, 3 * win} {
-					for _, i := range []int64{0, 1, L - 1, L, win - 1, win, win + 1} {
-						if i < 0 || bad != "" {
-							continue
-						}
-						val, ok, res := foldCond(u, ct.Cont, map[string]*E{ct.Idx.key: u.Int(i), u.Len(body).key: u.Int(L)})
-						c.Paths++
-						want := i < L && i < win
-						if !ok {
-							bad = "UNDECIDED: loop bound does not fold on constants: " + res
-						} else if val != want {
-							bad = fmt.Sprintf("for a body of %d bytes the scan %s offset %d; documented window: offsets below min(%d, len(body))", L, map[bool]string{true: "inspects", false: "does not inspect"}[val], i, win)
-						}
+			if v, ok := ct.Init.IntVal(); !ok || v != 0 || !ct.StepOK || ct.Step != 1 {
+				bad = "the scan does not go 0,1,2,... (a later marker could be returned first, or offsets skipped)"
+			}
+			for _, L := range []int64{0, 1, 9, win - 1, win, win + 1, 3 * win} {
+				for _, i := range []int64{0, 1, L - 1, L, win - 1, win, win + 1} {
+					if i < 0 || bad != "" {
+						continue
+					}
+					val, ok, res := foldCond(u, ct.Cont, map[string]*E{ct.Idx.key: u.Int(i), u.Len(body).key: u.Int(L)})
+					c.Paths++
+					want := i < L && i < win
+					if !ok {
+						bad = "UNDECIDED: loop bound does not fold on constants: " + res
+					} else if val != want {
+						bad = fmt.Sprintf("for a body of %d bytes the scan %s offset %d; documented window: offsets below min(%d, len(body))", L, map[bool]string{true: "inspects", false: "does not inspect"}[val], i, win)
 					}
 				}
-				// early exit: returns i exactly when some marker matches at i on the parameter itself
-				var markers []string
-				anyMatch := False
-				for _, at := range u.atoms {
-					if at.Op == "call" && at.Aux == calleeName(matcher) {
-						if at.Args[0] != body {
-							bad = "the matcher is applied to " + clip(u.Show(at.Args[0]), 80) + " instead of the whole body: a marker that starts inside the window but ends beyond it is missed"
-						}
-						if at.Args[2] != ct.Idx {
-							bad = "the matcher is not applied at the scan offset"
-						}
-						if m, ok := at.Args[1].StrVal(); ok {
-							markers = append(markers, m)
-						} else {
-							bad = "non-constant marker"
-						}
-						anyMatch = u.bdd.Or(anyMatch, u.Atom(at))
+			}
+			// a hit at offset i: some documented marker m fits into the body at i (i+len(m) <= len(body),
+			// measured on the whole body, not on the window) and equals body[i:i+len(m)] ignoring case
+			intT, strT, boolT := types.Typ[types.Int], types.Typ[types.String], types.Typ[types.Bool]
+			wantHit := False
+			for _, m := range []string{"</head", "<link", "<script", "<style"} {
+				end := u.Bin(token.ADD, ct.Idx, u.Int(int64(len(m))), intT)
+				fits := u.bdd.Not(u.ToBool(u.Lt(u.Len(body), end)))
+				win1 := u.Slice(body, ct.Idx, end, nil, strT)
+				eq := u.bdd.Or(u.ToBool(u.LibCall("strings.EqualFold", boolT, win1, u.Str(m))), False)
+				if alt := u.LibCall("strings.EqualFold", boolT, u.Str(m), win1); u.atomIx[alt.key] != 0 || alt.Op == "bool" {
+					// the comparison written the other way round
+					if _, known := u.atomIx[alt.key]; known {
+						eq = u.ToBool(alt)
 					}
 				}
-				sort.Strings(markers)
-				wantM := []string{"</head", "<link", "<script", "<style"}
-				if strings.Join(markers, " ") != strings.Join(wantM, " ") && bad == "" {
-					bad = fmt.Sprintf("marker table is %q, documented %q", markers, wantM)
+				wantHit = u.bdd.Or(wantHit, u.bdd.And(fits, eq))
+			}
+			body0 := u.bdd.And(s.RC[l.Header], ct.Cont)
+			gotHit, gotMiss := False, False
+			other := ""
+			for _, r := range s.Rets {
+				switch {
+				case r.Cond == False:
+				case r.Vals[0] == ct.Idx:
+					gotHit = u.bdd.Or(gotHit, r.Cond)
+				case isIntConst(r.Vals[0], -1):
+					gotMiss = u.bdd.Or(gotMiss, r.Cond)
+				default:
+					other = clip(u.Show(r.Vals[0]), 80)
 				}
-				body0 := u.bdd.And(s.RC[l.Header], ct.Cont)
-				okHit, okMiss := false, false
-				for _, r := range s.Rets {
-					if r.Vals[0] == ct.Idx && r.Cond == u.bdd.And(body0, anyMatch) {
-						okHit = true
-					}
-					if isIntConst(r.Vals[0], -1) && u.bdd.Implies(r.Cond, u.bdd.Not(ct.Cont)) {
-						okMiss = true
-					}
-				}
-				if bad == "" && (!okHit || !okMiss || len(s.Rets) != 2) {
-					bad = fmt.Sprintf("the finder does not return the first offset with a match and -1 after exhaustion (returns offset on any match=%v, -1 only after the window=%v, return sites=%d)", okHit, okMiss, len(s.Rets))
+			}
+			if bad == "" {
+				switch {
+				case other != "":
+					bad = "the finder returns " + other + ", documented: the first offset with a match, or -1"
+				case gotHit != u.bdd.And(body0, wantHit):
+					diff := u.bdd.Xor(gotHit, u.bdd.And(body0, wantHit))
+					bad = "the finder does not return an offset exactly when one of </head, <link, <style, <script matches there (case-insensitively, within the whole body): differs when " + clip(u.ShowBool(diff), 240)
+				case !u.bdd.Implies(gotMiss, u.bdd.Not(ct.Cont)) || gotMiss == False:
+					bad = "the finder does not return -1 exactly after the window is exhausted"
 				}
 			}
 		}
-		c.Check(bad == "", "C20.R4", shortFn(finder)+": ascending first-hit scan over min(window, len(body)) with the documented markers", finder.Pos(), "loop bound evaluated on 49 (length, offset) pairs; 4 markers", bad)
-	}
-	{
-		g := NewGate(c.P)
-		g.Inline = inlineOnly()
-		s := g.Eval(matcher)
-		u := g.U
-		ps := g.ParamExprs(matcher)
-		var body, match, idx *E
-		for i, p := range matcher.Params {
-			switch typeStr(p.Type()) {
-			case "int":
-				idx = ps[i]
-			case "string":
-				if body == nil {
-					body = ps[i]
-				} else {
-					match = ps[i]
-				}
-			}
-		}
-		res := g.RetExpr(s, 0)
-		bad := ""
-		if body == nil || match == nil || idx == nil {
-			bad = "UNDECIDED: unexpected signature"
-		} else {
-			end := u.Bin(binTokens["+"], idx, u.Len(match), types.Typ[types.Int])
-			oob := u.ToBool(u.Lt(u.Len(body), end))
-			cmp := u.Call("strings.EqualFold", types.Typ[types.Bool], u.Slice(body, idx, end, nil, types.Typ[types.String]), match)
-			cmp2 := u.Call("strings.EqualFold", types.Typ[types.Bool], match, u.Slice(body, idx, end, nil, types.Typ[types.String]))
-			want := u.bdd.And(u.bdd.Not(oob), u.ToBool(cmp))
-			want2 := u.bdd.And(u.bdd.Not(oob), u.ToBool(cmp2))
-			got := u.ToBool(res)
-			if got != want && got != want2 {
-				bad = "the matcher is not: index+len(marker) <= len(body) && EqualFold(body[index:index+len(marker)], marker); it is " + clip(u.ShowBool(got), 200)
-			}
-		}
-		c.Check(bad == "", "C20.R4", shortFn(matcher)+": bounds-guarded, case-insensitive comparison of body[i:i+len(marker)]", matcher.Pos(), "decision function equals the documented one", bad)
+		c.Check(bad == "", "C20.R4", shortFn(finder)+": ascending first-hit scan over min(window, len(body)) with the documented markers", finder.Pos(), "loop bound evaluated on 49 (length, offset) pairs; hit condition equals the documented one for the 4 markers", bad)
+		c.Check(bad == "", "C20.R4", shortFn(finder)+": bounds-guarded, case-insensitive comparison of body[i:i+len(marker)]", finder.Pos(), "decision function equals the documented one", bad)
 	}
 }
